@@ -252,7 +252,7 @@ def _const_decl(unit, name):
 
 
 def correspond(ctx):
-    for uid in range(ctx.n(1, 12)):
+    for uid in range(ctx.n(1, 30)):
         run_unit(ctx, ctx.rng, uid)
 
 
